@@ -185,7 +185,6 @@ func NonCanonical(r *rand.Rand) []byte {
 	return msg
 }
 
-
 // Untyped builds a message (bare or relayed) that carries option `code` with an arbitrary payload of 0..80 octets, for
 // option codes the library has a typed parser for but gen6 has no generator: the harness cannot know the layout, so
 // it offers payloads of every small length and lets the library decide which it accepts (monitors that do not need a
